@@ -419,8 +419,9 @@ def parcor_stable(filt):
     Tests filter stability with Line Spectral Frequencies (LSF) values.
 
   """
+  den = filt.denpoly
   try:
-    return all(abs(k) < 1 for k in parcor(ZFilter(filt.denpoly)))
+    return all(abs(k) < 1 for k in parcor(ZFilter(den / den[0]))) # Monic
   except ParCorError:
     return False
 
